@@ -83,12 +83,14 @@ def run(ctx):
         k = v[1]
         e = dict(k["expected"])
         exp = {"outcome": e["outcome"]}
-        if e["outcome"] == "Value":
+        if e["outcome"] != "Rejected":
             exp.update({"dims": list(e["dims"]), "name": e["name"], "shape": list(e["shape"]), "coeff": [list(row) for row in e["coeff"]]})
         parts = list(k["parts"])
         if parts:
             parts = [parts[0], parts[1], [list(row) for row in parts[2]], [list(row) for row in parts[3]]]
         cid = "%s|%s|%s|%s|%s|%s|%s" % (k["grid"], k["kind"], "x".join(map(str, k["lead"])) or "-", k["dtype"], k["quad"], k["prev"], k["pat"])
+        if (k["layout"], k["storage"], k["api"]) != ("last", "numpy", "dataarray"):
+            cid += "|%s|%s|%s" % (k["layout"], k["storage"], k["api"])
         cases.append(
             {
                 "id": cid,
@@ -104,6 +106,10 @@ def run(ctx):
                 "table": [list(row) for row in k["table"]],
                 "parts": parts,
                 "coincident": bool(k["coincident"]),
+                "layout": k["layout"],
+                "storage": k["storage"],
+                "api": k["api"],
+                "square": bool(k["square"]),
                 "expected": exp,
                 "mesh": by_mesh[k["grid"]],
             }
@@ -123,7 +129,7 @@ def run(ctx):
             raise Machinery(x["machinery"])
     # ---- 4. judge
     path = os.path.join(ctx.work, "integ.ndjson")
-    keys = ("id", "coincident", "expected", "raised", "dims", "name", "same_grid", "is_uxda", "shape", "q", "qlin", "qone")
+    keys = ("id", "coincident", "expected", "raised", "dims", "name", "same_grid", "is_uxda", "shape", "q", "qlin", "qone", "api", "layout", "storage", "square")
     with open(path, "w") as fh:
         for x in recs:
             fh.write(json.dumps({k: x[k] for k in keys if k in x}) + "\n")
@@ -135,23 +141,23 @@ def run(ctx):
     failed = {}
     for v in X.prints(res.out):
         if v[0] == "V":
-            failed[v[1]] = (sorted(v[2]), v[3])
+            failed[v[1]] = (sorted(v[2]), v[3], dict(v[4]))
     by_case = {c["id"]: c for c in cases}
     by_rec = {x["id"]: x for x in recs}
     stats = {}
     for c in cases:
         trivial = c["kind"] == "n_face" and c["pat"] == "ones" and not c["lead"]
         ctx.count(1, None if trivial else c["id"])
-        k = "%s/%s" % (c["kind"], "coincident" if c["coincident"] else "distinct")
+        k = "%s/%s/%s/%s/%s" % (c["kind"], "coincident" if c["coincident"] else "distinct", c["layout"], c["storage"], c["api"])
         stats[k] = stats.get(k, 0) + 1
-    for cid, (clauses, cls) in sorted(failed.items()):
+    for cid, (clauses, cls, ax) in sorted(failed.items()):
         c = by_case[cid]
         for clause in clauses:
             ctx.violation(
                 cid,
                 clause,
                 detail={k: v for k, v in by_rec[cid].items() if k != "expected"},
-                sig={"sizes": cls, "kind": c["kind"]},
+                sig={"sizes": cls, "kind": c["kind"], "api": ax["api"], "layout": ax["layout"], "storage": ax["storage"], "square": bool(ax["square"])},
                 replay={k: c[k] for k in c},
             )
     ctx.note("cases_by_kind", stats)
